@@ -1633,10 +1633,10 @@ func (c06) Gen(rng *rand.Rand, tier string, emit func(string)) {
 			n = 2 + rng.Intn(60)
 			c06ManyKeys = 4 * n
 		}
-		if tier == "thorough" && i%500 == 250 {
-			// more than 10000 distinct classes
-			c06ManyKeys = 10001 + rng.Intn(500)
-			n = c06ManyKeys + 2000
+		if tier == "thorough" && i == 250 {
+			// more than 10000 distinct classes (once per seed: 3 orders x configurations)
+			c06ManyKeys = 16000 + rng.Intn(500)
+			n = 20000 // about 11400 distinct sequences drawn
 		}
 		consistent := rng.Intn(2) == 0
 		// count=0 records are not generated: SetCount turns every intermediate sum < 1 into 1, so that the merged
